@@ -77,9 +77,14 @@ def run_case(case, res):
         # the dimension-wise strategy calls set_grid on ONE grid object for every component grid: other trees come first
         for _ in range(rng.choice([0, 0, 1, 2])):
             hp, hl = [], []
+            mode = rng.random()
             for k in range(d):
-                if rng.random() < 0.5:
+                if mode < 0.3:
                     P, L = [a[k] + b[k] - x for x in reversed(pts[k])], list(reversed(levs[k]))   # mirror image, same size
+                elif mode < 0.55:
+                    P, L = trees.ancestor(rng, pts[k], levs[k])     # an earlier refinement stage of the observed tree
+                elif mode < 0.7:
+                    P, L = list(pts[k]), list(levs[k])              # the very same stripe was already set once
                 else:
                     P, L = trees.gen_tree(rng, a[k], b[k], n_points=rng.choice([3, 5, 6, 9, 12]))
                 hp.append([float(x) for x in P])
